@@ -66,14 +66,32 @@ class Err(Exception):
     def __bool__(self):
         return False
 
+    def __eq__(self, other):
+        return isinstance(other, BaseException)     # exceptions that compare equal to each other (identity is what counts)
+
+    def __hash__(self):
+        return 19
+
 
 class Err2(Exception):
     pass
+
+    def __eq__(self, other):
+        return isinstance(other, BaseException)     # exceptions that compare equal to each other (identity is what counts)
+
+    def __hash__(self):
+        return 19
 
 
 class Base(BaseException):
     def __bool__(self):
         return False
+
+    def __eq__(self, other):
+        return isinstance(other, BaseException)     # exceptions that compare equal to each other (identity is what counts)
+
+    def __hash__(self):
+        return 19
 
 
 _SHARED = {}
